@@ -19,7 +19,7 @@ git apply "$PATCH" >> $LOG 2>&1 || { echo "PATCH DOES NOT APPLY" >> $LOG; }
 cargo build --offline >> $LOG 2>&1; BUILD_RC=$?
 cargo test --offline --test seeded_demo >> $LOG 2>&1; MUT_RC=$?
 rm tests/seeded_demo.rs
-cargo nextest run --workspace --no-fail-fast --test-threads 8 --offline > $OUT/suite.log 2>&1; SUITE_RC=$?
+cargo nextest run --workspace --no-fail-fast --tool-config-file pb:/w/lib/nextest.toml --profile pb --test-threads 8 --offline > $OUT/suite.log 2>&1; SUITE_RC=$?
 SUMMARY=$(grep -E "Summary|tests run" $OUT/suite.log | tail -1)
 git checkout -- . ; git clean -fdq tests
 echo "id=$ID build_rc=$BUILD_RC demo_unchanged_rc=$BASE_RC demo_mutant_rc=$MUT_RC suite_rc=$SUITE_RC :: $SUMMARY" | tee -a $LOG
@@ -31,6 +31,6 @@ p='/verif/seeded/%s/meta.json'%i
 m=json.load(open(p)) if os.path.exists(p) else {}
 m.update({"id":i,"confirmed":{"build_rc":int(b),"demo_on_unchanged_rc":int(base),"demo_with_change_rc":int(mut),"suite_with_change_rc":int(suite),"suite_summary":summ,
  "ok": int(b)==0 and int(base)==0 and int(mut)!=0 and int(suite)==0},
- "ran":["cargo test --offline --test seeded_demo (unchanged)","git apply patch.diff","cargo build --offline","cargo test --offline --test seeded_demo (with change)","cargo nextest run --workspace --no-fail-fast --test-threads 8 --offline (with change)"]})
+ "ran":["cargo test --offline --test seeded_demo (unchanged)","git apply patch.diff","cargo build --offline","cargo test --offline --test seeded_demo (with change)","cargo nextest run --workspace --no-fail-fast --tool-config-file pb:/w/lib/nextest.toml --profile pb --test-threads 8 --offline (with change; the BASELINE command)"]})
 json.dump(m,open(p,'w'),indent=1)
 PY
